@@ -1,6 +1,7 @@
 import MimicProofs.ConnLife
 import MimicProofs.Script
 import MimicProps.C03
+import Mimic.Extracted.Handlers
 /-!
 # C10 — Every initialised session is closed exactly once; every connection is released
 
@@ -65,5 +66,19 @@ example :
     (runAll init evs).phase = .closed ∧ (runAll init evs).closeCalls = 1 ∧ (runAll init evs).initDone = true := by
   simp [runAll, step, init, loginScript, scriptOf, callOps, colDefs, rowOps, runConnPhase, runOps, flush, startInit,
     finishInit, toIdle, runHandler, resumeAt, throwHandler, runCmdArm, throwStart, closeSession, runClosing, release]
+
+/-- **the coroutine around the handlers has the shape the connection machine assumes** (extracted from
+    `connection.py` / `server.py` on every run): `_start` (connection phase and `session.init` inside one `try`, the
+    `AuthenticationFailed` / `Exception` arms, `command_phase` under the KILL CONNECTION arm, `session.close` in
+    `finally`), `command_phase` (read outside the handler's `try`, the `_executing` flag, the dispatch chain, the
+    `MysqlError` / `AuthenticationFailed` / `CancelledError` / `Exception` arms, `reset_seq` in `finally`), the guards of
+    `kill`, the task life cycle in `start`, and registration / `writer.close()` / deregistration in the server callback. -/
+theorem coroutine_skeletons : Mimic.Extracted.Handlers.coroutine = [
+      ("Connection._start", "TRY[CALL(connection_phase) CALL(init)] EXCEPT(AuthenticationFailed)[RETURN] EXCEPT(Exception)[W(err,drain) RAISE()] TRY[CALL(command_phase)] EXCEPT(asyncio.CancelledError)[IF(self._kill == KillKind.CONNECTION)[W(err,drain) SET(_kill=None)]ELSE[RAISE()]] FINALLY[CALL(close)]"),
+      ("Connection.command_phase", "WHILE(True)[TRY[READ] EXCEPT(ConnectionClosed)[RETURN] SET(_executing=True) TRY[IF(command == types.Commands.COM_QUERY)[H(query)]ELSE[IF(command == types.Commands.COM_STMT_PREPARE)[H(stmt_prepare)]ELSE[IF(command == types.Commands.COM_STMT_SEND_LONG_DATA)[H(stmt_send_long_data)]ELSE[IF(command == types.Commands.COM_STMT_EXECUTE)[H(stmt_execute)]ELSE[IF(command == types.Commands.COM_STMT_FETCH)[H(stmt_fetch)]ELSE[IF(command == types.Commands.COM_STMT_RESET)[H(stmt_reset)]ELSE[IF(command == types.Commands.COM_STMT_CLOSE)[H(stmt_close)]ELSE[IF(command == types.Commands.COM_PING)[H(ping)]ELSE[IF(command == types.Commands.COM_CHANGE_USER)[H(change_user)]ELSE[IF(command == types.Commands.COM_RESET_CONNECTION)[H(reset_connection)]ELSE[IF(command == types.Commands.COM_DEBUG)[H(debug)]ELSE[IF(command == types.Commands.COM_QUIT)[RETURN]ELSE[IF(command == types.Commands.COM_INIT_DB)[H(init_db)]ELSE[IF(command == types.Commands.COM_FIELD_LIST)[H(field_list)]ELSE[RAISE(MysqlError(f'Unsupported Command: {hex(c)]]]]]]]]]]]]]]] EXCEPT(MysqlError)[SET(_executing=False) W(err,drain)] EXCEPT(AuthenticationFailed)[RETURN] EXCEPT(asyncio.CancelledError)[IF(self._kill == KillKind.QUERY)[SET(_executing=False) IF(self._task and hasattr(self._task, 'uncancel'))[DO(uncancel)]ELSE[] W(err,drain) SET(_kill=None)]ELSE[RAISE()]] EXCEPT(Exception)[SET(_executing=False) W(err,drain)] FINALLY[SET(_executing=False) DO(reset_seq)]]"),
+      ("Connection.kill", "IF(not self._task)[RETURN]ELSE[] IF(kind == KillKind.QUERY)[IF(not self._executing or self._kill is not None)[RETURN]ELSE[] IF(asyncio.current_task() is self._task)[RETURN]ELSE[]]ELSE[] SET(_kill=kind) DO(cancel)"),
+      ("Connection.start", "SET(_task=asyncio.create_task(self._start())) TRY[AWAIT(_task)] FINALLY[SET(_task=None)]"),
+      ("MysqlServer._client_connected_cb", "TRY[] EXCEPT(Exception)[W(err,drain) RETURN] TRY[CALL(add)] EXCEPT(TooManyConnections)[W(other,drain) RETURN] EXCEPT(Exception)[W(other,drain) RETURN] TRY[CALL(start)] FINALLY[DO(close) CALL(remove)]")] := by
+  rfl
 
 end MimicProps.C10
